@@ -22,6 +22,17 @@ use jt::*;
 // src/processor.rs: enum ContextKey / Context::key — opaque here; Hash/Eq coherence is C10.coh (Kani V3 + known findings)
 #[verifier::external_body]
 pub struct ContextKey { _p: () }
+// trusted stand-ins for #[derive(PartialEq, Eq, Hash)] on ContextKey; that they AGREE (a == b ==> same hash) is C10.coh:
+// proved for numbers by Kani V3, assumed for strings/arrays, false for permuted objects and -0 (known findings)
+impl PartialEq for ContextKey { #[verifier::external_body] fn eq(&self, other: &Self) -> bool { unimplemented!() } }
+impl Eq for ContextKey {}
+impl std::hash::Hash for ContextKey { #[verifier::external_body] fn hash<H: std::hash::Hasher>(&self, state: &mut H) { unimplemented!() } }
+pub mod keymodel {
+use vstd::prelude::*;
+use super::ContextKey;
+pub broadcast axiom fn axiom_context_key_model()
+    ensures #[trigger] vstd::std_specs::hash::obeys_key_model::<ContextKey>();
+}
 pub uninterp spec fn ctx_key(c: Context) -> ContextKey;
 impl Context {
 //@@ fn ctxo.key = src/processor.rs :: impl Context :: fn key
@@ -39,7 +50,7 @@ use super::*;
 //@@ include lemmas/rows.rs
 }
 use rows::*;
-broadcast use rows::group_rows;
+broadcast use {rows::group_rows, prefix_lemmas::group_prefix, jt::group_json_eq, vstd::std_specs::hash::group_hash_axioms, keymodel::axiom_context_key_model};
 
 // ------------------------------------------------------------------ src/limits.rs
 //@@ item src/limits.rs :: struct Limiter
@@ -78,6 +89,223 @@ impl Process for Limiter {
 //@@ fn limiter.start = src/limits.rs :: impl Process for Limiter :: fn start
 //@@ safety C03
 //@@ endfn
+}
+
+// ------------------------------------------------------------------ src/filter.rs
+//@@ item src/filter.rs :: struct ActiveFilter
+//@@ enditem
+//@@ item src/filter.rs :: struct Filter
+//@@ enditem
+
+impl Filter {
+    pub closed spec fn g(&self) -> Rc<dyn Get> { self.filter }
+//@@ fn filter.create_process = src/filter.rs :: impl Filter :: fn create_process
+//@@ safety C03
+//@@ ret r
+//@@ header
+    requires next.inv(),
+    ensures r.inv(), r.log() == next.log(), r.must_break() == next.must_break(),
+        forall|rows: Seq<Context>| #[trigger] r.fut(rows) == next.fut(filter_rows(self.g(), rows)), // @obl STAGE.filter.ctor : C03 C11
+//@@ endfn
+}
+
+impl Process for ActiveFilter {
+    closed spec fn inv(&self) -> bool { self.next.inv() }
+    closed spec fn log(&self) -> Seq<u8> { self.next.log() }
+    closed spec fn fut(&self, rows: Seq<Context>) -> Seq<u8> { self.next.fut(filter_rows(self.filter, rows)) }
+    closed spec fn must_break(&self) -> bool { self.next.must_break() }
+    closed spec fn eager(&self) -> bool { false }
+
+//@@ fn filter.complete = src/filter.rs :: impl Process for ActiveFilter :: fn complete
+//@@ safety C03 C16
+//@@ endfn
+//@@ fn filter.start = src/filter.rs :: impl Process for ActiveFilter :: fn start
+//@@ safety C03
+//@@ rewrite crate_paths
+//@@ endfn
+//@@ fn filter.process = src/filter.rs :: impl Process for ActiveFilter :: fn process
+//@@ safety C03 C14 C16 C11
+//@@ rewrite crate_paths
+//@@ endfn
+}
+
+// ------------------------------------------------------------------ src/selection.rs
+//@@ item src/selection.rs :: struct SelectionProcess
+//@@ enditem
+//@@ item src/selection.rs :: struct Selection
+//@@ enditem
+
+impl Selection {
+    pub closed spec fn g(&self) -> Rc<dyn Get> { self.getter }
+    pub closed spec fn title(&self) -> String { *self.name }
+//@@ fn selection.create_process = src/selection.rs :: impl Selection :: fn create_process
+//@@ safety C03
+//@@ ret r
+//@@ header
+    requires next.inv(),
+    ensures r.inv(), r.log() == next.log(), r.must_break() == next.must_break(),
+        forall|rows: Seq<Context>| #[trigger] r.fut(rows) == next.fut(select_rows(self.g(), self.title(), rows)), // @obl STAGE.selection.ctor : C03 C11
+//@@ endfn
+}
+
+impl Process for SelectionProcess {
+    closed spec fn inv(&self) -> bool { self.next.inv() }
+    closed spec fn log(&self) -> Seq<u8> { self.next.log() }
+    closed spec fn fut(&self, rows: Seq<Context>) -> Seq<u8> { self.next.fut(select_rows(self.getter, *self.name, rows)) }
+    closed spec fn must_break(&self) -> bool { self.next.must_break() }
+    closed spec fn eager(&self) -> bool { false }
+
+//@@ fn selection.start = src/selection.rs :: impl Process for SelectionProcess :: fn start
+//@@ safety C03
+//@@ endfn
+//@@ fn selection.complete = src/selection.rs :: impl Process for SelectionProcess :: fn complete
+//@@ safety C03 C16
+//@@ endfn
+//@@ fn selection.process = src/selection.rs :: impl Process for SelectionProcess :: fn process
+//@@ safety C03 C14 C16 C11 C12
+//@@ endfn
+}
+
+// ------------------------------------------------------------------ src/pre_sets.rs
+//@@ item src/pre_sets.rs :: struct PreSetProcessor
+//@@ enditem
+
+impl Process for PreSetProcessor {
+    closed spec fn inv(&self) -> bool { self.next.inv() }
+    closed spec fn log(&self) -> Seq<u8> { self.next.log() }
+    closed spec fn fut(&self, rows: Seq<Context>) -> Seq<u8> { self.next.fut(preset_rows(self.variables@, self.macros@, rows)) }
+    closed spec fn must_break(&self) -> bool { self.next.must_break() }
+    closed spec fn eager(&self) -> bool { false }
+
+//@@ fn preset.complete = src/pre_sets.rs :: impl Process for PreSetProcessor :: fn complete
+//@@ safety C03 C16
+//@@ endfn
+//@@ fn preset.process = src/pre_sets.rs :: impl Process for PreSetProcessor :: fn process
+//@@ safety C03 C14 C16 C11 C12
+//@@ endfn
+//@@ fn preset.start = src/pre_sets.rs :: impl Process for PreSetProcessor :: fn start
+//@@ safety C03
+//@@ endfn
+}
+
+// ------------------------------------------------------------------ src/splitter.rs
+//@@ item src/splitter.rs :: struct SplitterProcess
+//@@ enditem
+//@@ item src/splitter.rs :: struct Splitter
+//@@ enditem
+
+impl Splitter {
+    pub closed spec fn g(&self) -> Rc<dyn Get> { self.split_by }
+//@@ fn splitter.create_process = src/splitter.rs :: impl Splitter :: fn create_process
+//@@ safety C03
+//@@ ret r
+//@@ header
+    requires next.inv(),
+    ensures r.inv(), r.log() == next.log(), r.must_break() == next.must_break(),
+        forall|rows: Seq<Context>| #[trigger] r.fut(rows) == next.fut(split_rows(self.g(), rows)), // @obl STAGE.splitter.ctor : C03 C11
+//@@ endfn
+}
+
+impl Process for SplitterProcess {
+    closed spec fn inv(&self) -> bool { self.next.inv() }
+    closed spec fn log(&self) -> Seq<u8> { self.next.log() }
+    closed spec fn fut(&self, rows: Seq<Context>) -> Seq<u8> { self.next.fut(split_rows(self.split_by, rows)) }
+    closed spec fn must_break(&self) -> bool { self.next.must_break() }
+    closed spec fn eager(&self) -> bool { false }
+
+//@@ fn splitter.complete = src/splitter.rs :: impl Process for SplitterProcess :: fn complete
+//@@ safety C03 C16
+//@@ endfn
+//@@ fn splitter.process = src/splitter.rs :: impl Process for SplitterProcess :: fn process
+//@@ safety C03 C14 C16 C11 C12 C05
+//@@ loop 1 iter it
+                invariant
+                    self.next.inv(), self.split_by == old(self).split_by,
+                    0 <= it.index@ <= it.seq().len(), it.seq() == lst@,
+                    old(self).split_by.get_spec(&context) == Some(JsonValue::Array(lst)),
+                    is_prefix(old(self).next.log(), self.next.log()),
+                    // the successor has been handed exactly the rows of the first it.index elements: what it will still
+                    // print for the remaining elements followed by x is what the old successor would print for all of them
+                    forall|x: Seq<Context>| self.next.log().add(#[trigger] self.next.fut(elems_rows(context, lst@.subrange(it.index@, lst@.len() as int)).add(x)))
+                        == old(self).next.log().add(old(self).next.fut(elems_rows(context, lst@).add(x))),
+                    old(self).next.must_break() || !self.next.must_break(),
+//@@ after-loop 1
+            proof {
+                let e = elems_rows(context, lst@.subrange(lst@.len() as int, lst@.len() as int));
+                assert(e =~= Seq::<Context>::empty());
+                assert forall|x: Seq<Context>| self.next.log().add(#[trigger] self.next.fut(x)) == old(self).next.log().add(old(self).next.fut(elems_rows(context, lst@).add(x))) by {
+                    assert(e.add(x) =~= x);
+                }
+            }
+//@@ before "for val in lst {"
+            proof { assert(lst@.subrange(0, lst@.len() as int) =~= lst@); }
+//@@ before "return Ok(ProcessDesision::Break);"
+                    proof {
+                        // the successor said Break: whatever follows cannot change its output any more (P2.done),
+                        // so dropping the remaining elements and all later rows is invisible
+                        let e1 = elems_rows(c0, lst@.subrange(it.index@ + 1, lst@.len() as int));
+                        assert forall|x: Seq<Context>| self.next.log().add(#[trigger] self.next.fut(x)) == old(self).next.log().add(old(self).next.fut(elems_rows(c0, lst@).add(x))) by {
+                            assert(self.next.fut(e1.add(x)) == self.next.fut(Seq::empty()));
+                            assert(self.next.fut(x) == self.next.fut(Seq::empty()));
+                        }
+                    }
+//@@ before "let context = context.with_inupt(val);"
+                let ghost c0 = context;
+                proof {
+                    let rest = lst@.subrange(it.index@, lst@.len() as int);
+                    let rest1 = lst@.subrange(it.index@ + 1, lst@.len() as int);
+                    assert(rest.subrange(1, rest.len() as int) =~= rest1);
+                    assert(rest[0] == val);
+                    assert(elems_rows(context, rest) == seq![ctx_with_input(context, val)].add(elems_rows(context, rest1)));
+                    assert forall|x: Seq<Context>| seq![ctx_with_input(context, val)].add(#[trigger] elems_rows(context, rest1).add(x)) == elems_rows(context, rest).add(x) by {
+                        assert(seq![ctx_with_input(context, val)].add(elems_rows(context, rest1).add(x)) =~= seq![ctx_with_input(context, val)].add(elems_rows(context, rest1)).add(x));
+                    }
+                }
+//@@ endfn
+//@@ fn splitter.start = src/splitter.rs :: impl Process for SplitterProcess :: fn start
+//@@ safety C03
+//@@ endfn
+}
+
+// ------------------------------------------------------------------ src/duplication_remover.rs
+pub mod duplication_remover {
+use vstd::prelude::*;
+use super::*;
+pub type Result<T> = ProcessResult<T>;
+broadcast use {super::rows::group_rows, super::prefix_lemmas::group_prefix, vstd::std_specs::hash::group_hash_axioms, super::keymodel::axiom_context_key_model};
+//@@ item src/duplication_remover.rs :: struct Uniquness
+//@@ enditem
+
+impl Uniquness {
+//@@ fn uniq.create_process = src/duplication_remover.rs :: impl Uniquness :: fn create_process
+//@@ safety C03 C10
+//@@ ret r
+//@@ header
+    requires next.inv(),
+    ensures r.inv(), r.log() == next.log(), r.must_break() == next.must_break(),
+        forall|rows: Seq<Context>| #[trigger] r.fut(rows) == next.fut(uniq_rows(Set::empty(), rows)), // @obl STAGE.uniq.ctor : C03 C10
+//@@ endfn
+}
+
+impl Process for Uniquness {
+    closed spec fn inv(&self) -> bool { self.next.inv() }
+    closed spec fn log(&self) -> Seq<u8> { self.next.log() }
+    closed spec fn fut(&self, rows: Seq<Context>) -> Seq<u8> { self.next.fut(uniq_rows(self.knwon_lines@, rows)) }
+    closed spec fn must_break(&self) -> bool { self.next.must_break() }
+    closed spec fn eager(&self) -> bool { false }
+
+//@@ fn uniq.complete = src/duplication_remover.rs :: impl Process for Uniquness :: fn complete
+//@@ safety C03 C16 C10
+//@@ endfn
+//@@ fn uniq.start = src/duplication_remover.rs :: impl Process for Uniquness :: fn start
+//@@ safety C03
+//@@ endfn
+//@@ fn uniq.process = src/duplication_remover.rs :: impl Process for Uniquness :: fn process
+//@@ safety C03 C10 C14 C16
+//@@ before "Ok(ProcessDesision::Continue)"
+            proof { assert(old(self).knwon_lines@.insert(ctx_key(context)) =~= old(self).knwon_lines@); }
+//@@ endfn
+}
 }
 
 } // verus!
